@@ -183,7 +183,13 @@ func c13Routes(out *verifh.Out, id string, rms []c13RM, f c13Fail, withMsgs bool
 			attrs.Pref = &p
 			pref = verifh.Some(verifh.N(uint64(p)))
 		}
-		msgs = append(msgs, &rtnetlink.RouteMessage{Family: unix.AF_INET6, DstLength: rm.Len, Attributes: attrs})
+		// the route type, table, protocol and scope fields are not looked at: an aggregate is typically anchored on lo as
+		// an unreachable / blackhole / prohibit route and is advertised like any other
+		k := len(msgs) + int(rm.Len)
+		msgs = append(msgs, &rtnetlink.RouteMessage{Family: unix.AF_INET6, DstLength: rm.Len, Attributes: attrs,
+			Type:     []uint8{unix.RTN_UNICAST, unix.RTN_UNREACHABLE, unix.RTN_BLACKHOLE, unix.RTN_PROHIBIT, 0}[k%5],
+			Protocol: []uint8{unix.RTPROT_BOOT, unix.RTPROT_KERNEL, unix.RTPROT_STATIC, unix.RTPROT_RA, 0}[(k/5)%5],
+			Scope:    []uint8{unix.RT_SCOPE_UNIVERSE, unix.RT_SCOPE_LINK, unix.RT_SCOPE_HOST}[(k/3)%3]})
 		cm = append(cm, verifh.App("mkRM", c13Big(a), verifh.N(uint64(rm.Len)), verifh.N(uint64(rm.Oif)), pref))
 	}
 	calls, badReq := 0, ""
